@@ -450,9 +450,12 @@ Fixpoint lr_reads (lr : linereader) (n : nat) : list sexp :=
   | S n' => let '(l, lr') := lr_read_line lr in
             L [s_of_str l; A (lr_no lr')] :: lr_reads lr' n'
   end.
-Definition run_line_reader (m : option mode) (handle : list str) (reg : list (tscheme * bool)) (reads : nat) : sexp :=
+Fixpoint lr_skip (lr : linereader) (n : nat) : linereader :=
+  match n with O => lr | S n' => lr_skip (snd (lr_read_line lr)) n' end.
+Definition run_line_reader (m : option mode) (handle : list str) (reg : list (tscheme * bool)) (reads pre : nat) : sexp :=
   let registry := map fst reg in
-  let '(o, lr') := header_from_line_reader registry (lr_new handle) m LgRoot in
+  (* `pre` read_line() calls before the header is read *)
+  let '(o, lr') := header_from_line_reader registry (lr_skip (lr_new handle) pre) m LgRoot in
   L [enc_out (enc_header registry) o; A (lr_no lr'); s_of_str (lr_peek lr'); L (lr_reads lr' reads)].
 
 (* MafHeader.from_defaults(...) / MafHeader.from_reader(reader, ...) *)
@@ -519,7 +522,12 @@ Definition dispatch1 (s : sexp) : sexp :=
       end
   | L [A 7; m; handle; reg; A reads] =>
       match as_mode_opt m, as_listof as_str handle, as_listof dec_scheme_e reg with
-      | Some m', Some handle', Some reg' => run_line_reader m' handle' reg' (Z.to_nat reads)
+      | Some m', Some handle', Some reg' => run_line_reader m' handle' reg' (Z.to_nat reads) O
+      | _, _, _ => s_bad
+      end
+  | L [A 7; m; handle; reg; A reads; A pre] =>
+      match as_mode_opt m, as_listof as_str handle, as_listof dec_scheme_e reg with
+      | Some m', Some handle', Some reg' => run_line_reader m' handle' reg' (Z.to_nat reads) (Z.to_nat pre)
       | _, _, _ => s_bad
       end
   | L [A 8; src; reg; v; a; so; cs] =>
